@@ -194,8 +194,9 @@ var tokRe = regexp.MustCompile(`[A-Za-z_$][A-Za-z0-9_.$!@]*`)
 // negated. If goal == "" only the hypotheses are asserted (vacuity query).
 func (vc *VC) Emit(hyps []string, goal string, wantModel bool) string {
 	var skDecls []string
+	var sks []skolem
 	if goal != "" {
-		hyps, goal, skDecls = vc.pointwise(hyps, goal)
+		goal, sks, skDecls = vc.skolemiseGoal(goal)
 	}
 	needed := map[string]bool{}
 	var work []string
@@ -247,6 +248,20 @@ func (vc *VC) Emit(hyps []string, goal string, wantModel bool) string {
 			break
 		}
 	}
+	var extra []string
+	if len(sks) > 0 {
+		for _, h := range hyps {
+			var fas []string
+			conjunctForalls(h, &fas)
+			for _, fa := range fas {
+				extra = append(extra, instances(fa, sks)...)
+			}
+		}
+		extra = append(extra, vc.defInstances(needed, sks)...)
+	}
+	if goal != "" {
+		extra = append(extra, vc.termInstances(needed, hyps, goal)...)
+	}
 	var b strings.Builder
 	if wantModel {
 		b.WriteString("(set-option :produce-models true)\n")
@@ -281,6 +296,9 @@ func (vc *VC) Emit(hyps []string, goal string, wantModel bool) string {
 		}
 	}
 	for _, h := range hyps {
+		fmt.Fprintf(&b, "(assert %s)\n", h)
+	}
+	for _, h := range extra {
 		fmt.Fprintf(&b, "(assert %s)\n", h)
 	}
 	if goal != "" {
@@ -434,6 +452,7 @@ func rangeFact(s *Sort, t string) string {
 }
 
 func sortedKeys[V any](m map[string]V) []string {
+	// deterministic order
 	ks := make([]string, 0, len(m))
 	for k := range m {
 		ks = append(ks, k)
